@@ -11,6 +11,7 @@ mod prng;
 mod reader;
 mod scenario;
 mod sched;
+mod seeds;
 
 use std::process::exit;
 
